@@ -235,13 +235,13 @@ def builder_expr_eval(allowed_methods: tuple = ()):
         for n in ast.walk(e):
             if isinstance(n, ast.Call):
                 f = n.func
-                ok = (isinstance(f, ast.Name) and f.id in ("isinstance", "len", "bool", "str", "tuple", "list", "dict")) or \
+                ok = (isinstance(f, ast.Name) and f.id in ("isinstance", "len", "bool", "str", "tuple", "list", "dict", "range")) or \
                     (isinstance(f, ast.Attribute) and isinstance(f.value, ast.Name) and f.value.id == "ast") or \
                     (isinstance(f, ast.Attribute) and f.attr in allowed_methods) or \
                     (isinstance(f, ast.Name) and f.id in env and f.id in allowed_methods)
                 if not ok:
                     raise PureEvalError(f"call `{norm_stmt(f)}` outside the builder subset")
-            elif isinstance(n, ast.Name) and isinstance(n.ctx, ast.Load) and n.id not in env and n.id not in ("isinstance", "len", "bool", "str",
+            elif isinstance(n, ast.Name) and isinstance(n.ctx, ast.Load) and n.id not in env and n.id not in ("isinstance", "len", "bool", "str", "range",
                                                                                                           "tuple", "list", "dict", "None", "True", "False"):
                 raise PureEvalError(f"name `{n.id}` is not bound")
             elif isinstance(n, (ast.Lambda, ast.Yield, ast.YieldFrom, ast.Await, ast.NamedExpr)):
@@ -250,7 +250,7 @@ def builder_expr_eval(allowed_methods: tuple = ()):
         try:
             return eval(compile(ast.Expression(e), "<builder expr>", "eval"), {"__builtins__": {"isinstance": isinstance, "len": len, "bool": bool,
                                                                                               "str": str, "tuple": tuple, "list": list,
-                                                                                              "dict": dict}}, env)  # noqa: S307
+                                                                                              "dict": dict, "range": range}}, env)  # noqa: S307
         except (PureEvalError, Raised):
             raise
         except Exception as ex:  # the builder itself failed on this input
